@@ -160,7 +160,7 @@ def run(chk):
             if not ((isinstance(v, ast.Attribute) and norm.raw(v.value) == "self" and "waiter" in v.attr) or (isinstance(v, ast.Name) and "waiter" in v.id)):
                 continue
             nfw += 1
-            ws = [w for w in prog.enclosing(a, (ast.With,)) if any(norm.raw(it.context_expr) == "self._timer" for it in w.items)]
+            ws = [w for w in prog.enclosing(a, (ast.With,)) if any(norm.text(it.context_expr, w) == "self._timer" for it in w.items)]
             if ws:
                 chk.ok("C18.scope.total", a, f"StreamReader.{name}: `await {norm.raw(v)}` is inside `with self._timer`")
             else:
